@@ -90,6 +90,49 @@ def job(j):
     return info
 
 
+def supplied_rounded_probe(chk, dates):
+    """A supplied column is used in place of its computation -- as it is.  For every rule with a rounding specification and a
+    time suffix, on-grid amounts (among them amounts that a second floor/ceil onto the grid would move by one step in floating
+    point) are supplied for the rule and its other time unit is requested: it must be the supplied column times the factor."""
+    import arith
+    import popgen
+
+    tr = arith.ArithTrace()
+    n_ev = 0
+    for date in dates:
+        params, functions = gs.env(date)
+        df = gs.build_population(popgen.rich_core(date, random.Random(5)), date)
+        for g, grp in params.items():
+            for name, spec in (grp.get("rounding") or {}).items():
+                if name not in functions or name[-2:] not in ("_m", "_y") or not isinstance(spec, dict) or "base" not in spec:
+                    continue
+                base = float(spec["base"])
+                ks = [k for k in range(30000, 200000, 7) if base * np.floor((k * base) / base) != k * base or base * np.ceil((k * base) / base) != k * base][:12]
+                vals = [k * base for k in ks] + [300.0, 1234.5, 0.0]
+                x = np.array([vals[i % len(vals)] for i in range(len(df))], dtype=float)
+                sib = name[:-1] + ("y" if name.endswith("m") else "m")
+                d2 = df.copy()
+                d2[name] = x
+                try:
+                    res = gs.compute(d2, date, targets=[sib])
+                except Exception as e:  # noqa: BLE001
+                    chk.notes.setdefault("supplied_rounded_probe_errors", []).append(f"{date}:{name}: {type(e).__name__}: {str(e)[:80]}")
+                    continue
+                tr.add({"k": "conv", "a": sib, "ua": sib[-1], "xa": tr.cells(res[sib].to_numpy().astype(float)), "b": name, "ub": name[-1], "xb": tr.cells(x)},
+                       {"via": "supplied-rounded-rule", "node": sib, "src": name, "date": date, "base": base, "direction": spec.get("direction")})
+                n_ev += 1
+    bad, states = arith.judge([tr], chk.work, "c05probe")
+    chk.count(n_ev)
+    chk.cov["traces_validated_against_impl"] += n_ev
+    chk.notes["supplied_rounded_rules_probed"] = n_ev
+    seen = set()
+    for meta, clause in bad:
+        sig = f"C05|supplied-column-altered|node={meta['src']}"
+        if sig not in seen:
+            seen.add(sig)
+            chk.violation(sig, f"{meta['src']} supplied as data (on-grid amounts): {meta['node']} is not the supplied column times the unit factor at {meta['date']} (the supplied column was changed before use)", meta)
+
+
 def run(tier):
     chk = Check("C05", tier, LEVEL)
     rnd = random.Random(chk.seed * 65537 + 5)
@@ -151,6 +194,7 @@ def run(tier):
                 {"date": info["date"], "persons": info["persons"], "node": node, "col": b["col"], "clause": b["c"]},
             )
         chk.sample({"date": info["date"], "persons": info["n"], "overridden": [r["node"] for r in info["runs"][:8]]})
+    supplied_rounded_probe(chk, ["2023-01-01"] + [d for d in dates if d != "2023-01-01"][:2])
     chk.notes["distinct_nodes_overridden"] = len(nodes_done)
     chk.cov["rule"] = (
         "per population: base run with all non-time-derived nodes; for seeded nodes n (those with descendants among the targets preferred) a second run with n's computed "
